@@ -47,6 +47,15 @@ def gen_graph(rng):
                 vars_[nm] = ("idx", ln, rng.randrange(len(ev[ln][1])))
             else:
                 vars_[nm] = ("lit", rng.randint(0, 9))
+        elif r < 0.64:
+            # references inside a list of lists (a matrix whose entries refer to scalars declared elsewhere)
+            ev = evaluate(vars_)
+            scal = [n for n in defined if ev[n] is not None and isinstance(ev[n][1], int) and not isinstance(ev[n][1], bool)]
+            if scal:
+                a, b = rng.choice(scal), rng.choice(scal)
+                vars_[nm] = ("mat", [[a, 0], [0, b]] if rng.random() < 0.5 else [[1, [a, b]], [2, 3]])
+            else:
+                vars_[nm] = ("lit", rng.randint(0, 9))
         elif r < 0.7:
             vars_[nm] = ("ref", rng.choice(["nope", "undefined1", names[0] + "zz"]))   # dangling
         else:
@@ -88,6 +97,15 @@ def evaluate(vars_: dict):
             r = val(sp[1], stack + [nm])
             if r and r[0] == "val" and isinstance(r[1], list) and -len(r[1]) <= sp[2] < len(r[1]):
                 out = ("val", r[1][sp[2]])
+        elif sp[0] == "mat":
+            def cell(x):
+                if isinstance(x, list):
+                    return [cell(y) for y in x]
+                if isinstance(x, str):
+                    r = val(x, stack + [nm])
+                    return r[1] if r and r[0] == "val" else f"${x}"
+                return x
+            out = ("val", cell(sp[1]))
         elif sp[0] == "expr":
             env = {}
             ok = True
@@ -125,6 +143,10 @@ def spell(sp):
         return f"${sp[1]}" if len(sp) < 3 else f'"{sp[2]}${sp[1]}"'
     if sp[0] == "idx":
         return f"${sp[1]}[{sp[2]}]"
+    if sp[0] == "mat":
+        def nat(x):
+            return "( " + " ".join(nat(y) for y in x) + " )" if isinstance(x, list) else (f"${x}" if isinstance(x, str) else str(x))
+        return nat(sp[1])
     return '"' + sp[1] + '"'
 
 
@@ -135,6 +157,10 @@ def json_value(sp):
         return f"${sp[1]}" if len(sp) < 3 else f"{sp[2]}${sp[1]}"
     if sp[0] == "idx":
         return f"${sp[1]}[{sp[2]}]"
+    if sp[0] == "mat":
+        def js(x):
+            return [js(y) for y in x] if isinstance(x, list) else (f"${x}" if isinstance(x, str) else x)
+        return js(sp[1])
     return sp[1]
 
 
@@ -151,6 +177,8 @@ def render(rng, vars_: dict):
     inlist = [nm for nm in order if place[nm] == "inlist"]
     deep9 = [nm for nm in order if place[nm] == "deep9"]          # inside nine nested dicts: key paths of exactly 10 entries
     ndeep = 8 if any(vars_[nm][0] == "lit" and isinstance(vars_[nm][1], list) for nm in deep9) else 9   # a list item adds one entry
+    if any(vars_[nm][0] == "mat" for nm in deep9):
+        ndeep = 6                                                                                        # nested list items add up to three
     lkind = rng.choice(["direct", "deep"])          # the dict is an item of a list / of a list inside a list
     files = {}
     inc_name = "inc.json" if incl_syntax == "json" else "inc"
